@@ -17,8 +17,8 @@ CONSTANTS Paths, Contents, Size, Routes, Spellings
 \* separator, relative to the working directory): no result may depend on it
 Absent == "-"
 
-VARIABLES src, listing, counts, store, reloaded, fresh, pc, act
-vars == <<src, listing, counts, store, reloaded, fresh, pc, act>>
+VARIABLES src, listing, counts, store, reloaded, fresh, pc, act, round
+vars == <<src, listing, counts, store, reloaded, fresh, pc, act, round>>
 
 Files(t) == {p \in Paths : t[p] # Absent}
 Truth(t) == [p \in Files(t) |-> t[p]]
@@ -27,28 +27,36 @@ Sum(t, S) == IF S = {} THEN 0 ELSE LET p == CHOOSE p \in S : TRUE IN Size[t[p]] 
 
 Init == /\ src \in [Paths -> Contents \cup {Absent}] /\ Files(src) # {}
         /\ listing = <<>> /\ counts = [nfiles |-> 0, size |-> 0] /\ store = {} /\ reloaded = <<>>
-        /\ fresh = [r \in Routes |-> <<>>] /\ pc = "stage" /\ act = [op |-> "Init"]
+        /\ fresh = [r \in Routes |-> <<>>] /\ pc = "stage" /\ act = [op |-> "Init"] /\ round = 0
 \* build(): the listing pairs every relative path with the digest of its bytes; meta counts files and bytes
 Stage(sp) ==
          /\ pc = "stage"
          /\ listing' = Truth(src) /\ counts' = [nfiles |-> Cardinality(Files(src)), size |-> Sum(src, Files(src))]
-         /\ pc' = "transfer" /\ act' = [op |-> "Stage", spelling |-> sp] /\ UNCHANGED <<src, store, reloaded, fresh>>
+         /\ pc' = "transfer" /\ act' = [op |-> "Stage", spelling |-> sp] /\ UNCHANGED <<src, store, reloaded, fresh, round>>
 \* transfer(staging -> store, expanded): every listed content and the directory object
 Transfer == /\ pc = "transfer"
-            /\ store' = {<<"f", listing[p]>> : p \in DOMAIN listing} \cup {<<"d", listing>>}
-            /\ pc' = "reload" /\ act' = [op |-> "Transfer"] /\ UNCHANGED <<src, listing, counts, reloaded, fresh>>
+            /\ store' = store \cup {<<"f", listing[p]>> : p \in DOMAIN listing} \cup {<<"d", listing>>}
+            /\ pc' = "reload" /\ act' = [op |-> "Transfer"] /\ UNCHANGED <<src, listing, counts, reloaded, fresh, round>>
 \* Tree.load(store, oid)
 Reload == /\ pc = "reload" /\ <<"d", listing>> \in store
           /\ reloaded' = listing
-          /\ pc' = "checkout" /\ act' = [op |-> "Reload"] /\ UNCHANGED <<src, listing, counts, store, fresh>>
+          /\ pc' = "checkout" /\ act' = [op |-> "Reload"] /\ UNCHANGED <<src, listing, counts, store, fresh, round>>
 \* checkout into a fresh location: every listed path materialised from its object
 Checkout(r) == /\ pc = "checkout" /\ fresh[r] = <<>>
                /\ \A p \in DOMAIN listing : <<"f", listing[p]>> \in store
                /\ fresh' = [fresh EXCEPT ![r] = listing]
                /\ act' = [op |-> "Checkout", route |-> r]
                /\ pc' = IF \A q \in Routes \ {r} : fresh[q] # <<>> THEN "done" ELSE "checkout"
-               /\ UNCHANGED <<src, listing, counts, store, reloaded>>
-Next == (\E sp \in Spellings : Stage(sp)) \/ Transfer \/ Reload \/ \E r \in Routes : Checkout(r)
+               /\ UNCHANGED <<src, listing, counts, store, reloaded, round>>
+\* second round, same stores, same hash-state cache: two files of equal size (and equal mtime - an unpacked archive) have
+\* been swapped by renaming; everything is staged, stored and checked out again and must reproduce the NEW data
+Restage(p, q) ==
+    /\ pc = "done" /\ round = 0 /\ p # q /\ src[p] # Absent /\ src[q] # Absent /\ src[p] # src[q] /\ Size[src[p]] = Size[src[q]]
+    /\ src' = [src EXCEPT ![p] = src[q], ![q] = src[p]]
+    /\ listing' = <<>> /\ counts' = [nfiles |-> 0, size |-> 0] /\ reloaded' = <<>> /\ fresh' = [r \in Routes |-> <<>>]
+    /\ pc' = "stage" /\ round' = 1 /\ act' = [op |-> "Restage", p |-> p, q |-> q]
+    /\ UNCHANGED store
+Next == (\E p, q \in Paths : Restage(p, q)) \/ (\E sp \in Spellings : Stage(sp)) \/ Transfer \/ Reload \/ \E r \in Routes : Checkout(r)
 Spec == Init /\ [][Next]_vars
 
 (******************************* C02 predicates *****************************)
